@@ -313,6 +313,8 @@ def _make_component_classes():
                     kw['units'] = v['units']
                 if v.get('shape_by_conn'):
                     self.add_input(v['name'], shape_by_conn=True, **kw)
+                elif tuple(v['shape']) == ():
+                    self.add_input(v['name'], val=1.0, shape=(), **kw)     # a true 0-d variable
                 else:
                     self.add_input(v['name'], val=np.ones(tuple(v['shape'])), **kw)
             for v in c['outputs']:
@@ -380,11 +382,11 @@ def _make_component_classes():
 
         def _eval_f(self, inputs, on):
             c = self.options['spec']
-            f = np.array(c['c'][on], dtype=inputs[c['inputs'][0]['name']].dtype
+            f = np.array(c['c'][on], dtype=np.asarray(inputs[c['inputs'][0]['name']]).dtype
                          if c['inputs'] else float).ravel().copy()
             for iv in c['inputs']:
                 key = on + '|' + iv['name']
-                x = inputs[iv['name']].ravel()
+                x = np.asarray(inputs[iv['name']]).ravel()
                 if key in c['A']:
                     f = f + np.asarray(c['A'][key]) @ x
                 if key in c.get('Q', {}):
@@ -394,7 +396,7 @@ def _make_component_classes():
         def _dense_partial(self, inputs, on, iname):
             c = self.options['spec']
             key = on + '|' + iname
-            x = inputs[iname].ravel()
+            x = np.asarray(inputs[iname]).ravel()
             P = None
             if key in c['A']:
                 P = np.asarray(c['A'][key], dtype=float).copy()
@@ -452,7 +454,7 @@ def _make_component_classes():
                 tr('compute', self, inputs)
             for ov in self.options['spec']['outputs']:
                 outputs[ov['name']] = self._eval_f(inputs, ov['name']).reshape(
-                    outputs[ov['name']].shape)
+                    np.shape(outputs[ov['name']]))
 
         def compute_partials(self, inputs, partials):
             self._fill(partials, inputs, 1.0)
@@ -683,6 +685,8 @@ def build(spec, trace=None, setup=True, mode=None, problem_kwargs=None, before_s
                 for k in ('units', 'ref', 'ref0', 'res_ref'):
                     if v.get(k) is not None:
                         kw[k] = v[k]
+                if tuple(v['shape']) == ():
+                    kw['shape'] = ()
                 ivc.add_output(v['name'], val=np.asarray(v['val'], dtype=float).reshape(v['shape']),
                                **kw)
             model.add_subsystem('ivc', ivc)
